@@ -263,6 +263,20 @@ func c03Kind(c *CaseC03) string {
 }
 
 func sweepC03(tier string, emit func(*CaseC03)) {
+	// very long lists that only zoom out (tens of thousands of entries, negative unaligned vertical indices)
+	for _, n := range []int{32768, 40000, 65537} {
+		if tier == "quick" && n == 40000 {
+			continue
+		}
+		bs := rowBoxes(n, 12, 11)
+		for i := range bs {
+			bs[i].F = -int64(i%700) - 1
+		}
+		emit(&CaseC03{Boxes: bs, H: 10, V: 8})
+		if n == 32768 {
+			emit(&CaseC03{Boxes: bs, H: 12, V: 10})
+		}
+	}
 	// round list lengths: n different boxes, converted at their own zooms (identity), one level out, and one level in
 	for i, n := range roundSizes {
 		if tier == "quick" && i%3 != 1 {
